@@ -2,7 +2,7 @@
 //! and writes ndjson traces that TLC validates against the TLA+ specification.
 
 mod drivers;
-#[cfg(feature = "derive")]
+#[cfg(feature = "generated")]
 mod generated;
 mod ledger;
 mod faults;
@@ -95,7 +95,8 @@ macro_rules! each_feature_type {
 		each_codec_type!(@list $f, $args;
 			SNamed, STuple, SUnit, SCompact, SSkip, SSingleCompact, SSingle, SEncodedAs, SGeneric<u16>, SGeneric<String>,
 			STransp, Box<STransp>, [STransp; 3], Box<STranspBig>, Vec<STransp>, CA, Compact<CA>, SHasCompact,
-			EPlain, EDisc, EIdx, ESkip, EBoth, SZ, Vec<SZ>, (Vec<SZ>, u8), STranspCM, Box<STranspCM>, [STranspCM; 3], Box<STranspEA>, [STranspEA; 2], EV1, Box<EV1>, Rc<EV1>, (Box<EV1>, u8), Vec<Box<EV1>>, [Box<EV1>; 2], STranspZ, Box<STranspZ>, [STranspZ; 3], Rc<STranspZ>, (Box<STranspZ>, u16), STranspC, Box<STranspC>, [STranspC; 3], Rc<STranspC>, (u8, Box<STransp>), Vec<EPlain>, Option<EIdx>, [ESkip; 2], Box<EPlain>,
+			EPlain, EDisc, EIdx, ESkip, EBoth, SWide, EWide, Vec<SWide>, STranspSk, Box<STranspSk>, (Box<STranspSk>, u32), [STranspSk; 2],
+			[EV1; 3], Vec<[EV1; 2]>, ([EV1; 2], u8), SZ, Vec<SZ>, (Vec<SZ>, u8), STranspCM, Box<STranspCM>, [STranspCM; 3], Box<STranspEA>, [STranspEA; 2], EV1, Box<EV1>, Rc<EV1>, (Box<EV1>, u8), Vec<Box<EV1>>, [Box<EV1>; 2], STranspZ, Box<STranspZ>, [STranspZ; 3], Rc<STranspZ>, (Box<STranspZ>, u16), STranspC, Box<STranspC>, [STranspC; 3], Rc<STranspC>, (u8, Box<STransp>), Vec<EPlain>, Option<EIdx>, [ESkip; 2], Box<EPlain>,
 			SMelGeneric<u32>, SMelCA, EMelCompact, RV, RB, Tree, RM, RL, Vec<SNamed>, Vec<SUnit>, BTreeMap<u8, EPlain>, Vec<SCompact>
 		);
 		#[cfg(feature = "bit-vec")]
@@ -271,11 +272,14 @@ fn main() {
 			"C05" => {
 				#[cfg(feature = "derive")]
 				{
+					each_feature_type!(enc_one, (&mut ctx));
+					each_feature_type!(rt_one, (&mut ctx));
+				}
+				#[cfg(feature = "generated")]
+				{
 					each_generated_type!(enc_one, (&mut ctx));
 					each_generated_type!(rt_one, (&mut ctx));
 					each_generated_type!(dec_one, (&mut ctx));
-					each_feature_type!(enc_one, (&mut ctx));
-					each_feature_type!(rt_one, (&mut ctx));
 					let mut g = rng::G::new(ctx.seed);
 					for (tn, alts, r) in generated::skipped_values(&mut g) {
 						let rec = match r {
@@ -307,6 +311,10 @@ fn main() {
 				drive_items::<Vec<SCompact>, SCompact>(&mut ctx, "Vec<SCompact>");
 				#[cfg(feature = "derive")]
 				drive_items::<Vec<EPlain>, EPlain>(&mut ctx, "Vec<EPlain>");
+				#[cfg(feature = "derive")]
+				drive_items::<Vec<EV1>, EV1>(&mut ctx, "Vec<EV1>");
+				#[cfg(feature = "derive")]
+				drive_items::<VecDeque<EV1>, EV1>(&mut ctx, "VecDeque<EV1>");
 				drive_units::<Vec<()>>(&mut ctx, "Vec<()>");
 				drive_units::<VecDeque<()>>(&mut ctx, "VecDeque<()>");
 			},
@@ -329,7 +337,7 @@ fn main() {
 			"C13" => {
 				#[cfg(feature = "max-encoded-len")]
 				each_mel_type!(mel_one, (&mut ctx));
-				#[cfg(all(feature = "max-encoded-len", feature = "derive"))]
+				#[cfg(all(feature = "max-encoded-len", feature = "generated"))]
 				each_generated_mel_type!(mel_one, (&mut ctx));
 				each_codec_type!(fixed_one, (&mut ctx));
 			},
